@@ -199,12 +199,48 @@ func containerFor(pos string, it ap.Item) []ap.Item {
 			ap.ItemCollection{it, it},
 		}
 	}
-	return []ap.Item{
+	out := []ap.Item{
 		&ap.Object{ID: "https://example.com/o", Type: ap.NoteType, Attachment: it, AttributedTo: it, Replies: it},
 		&ap.Activity{ID: "https://example.com/a", Type: ap.CreateType, Actor: it, Object: it, Target: it},
 		&ap.Actor{ID: "https://example.com/p", Type: ap.PersonType, Inbox: it, Icon: it},
 		&ap.Collection{ID: "https://example.com/c", Type: ap.CollectionType, First: it, Current: it},
 	}
+	// every item-typed property of every struct type, one at a time (found by reflection over the jsonld-tagged fields)
+	itemT := reflect.TypeOf((*ap.Item)(nil)).Elem()
+	for _, g := range goTypeNames {
+		t := goTypes[g]
+		for i := 0; i < t.NumField(); i++ {
+			if t.Field(i).Type != itemT {
+				continue
+			}
+			v := reflect.New(t)
+			v.Elem().FieldByName("ID").SetString("https://example.com/prop/" + g)
+			if ft := v.Elem().FieldByName("Type"); ft.IsValid() {
+				ft.SetString(defaultTypeName(g))
+			}
+			if it != nil {
+				v.Elem().Field(i).Set(reflect.ValueOf(it))
+			}
+			out = append(out, v.Interface().(ap.Item))
+		}
+	}
+	return out
+}
+
+func defaultTypeName(g string) string {
+	switch g {
+	case "Object":
+		return "Note"
+	case "Actor":
+		return "Person"
+	case "Activity":
+		return "Create"
+	case "IntransitiveActivity":
+		return "Arrive"
+	case "Link":
+		return "Mention"
+	}
+	return g
 }
 
 var containerHelpers = map[string]func(c ap.Item) string{
